@@ -105,8 +105,11 @@ class C09(Pipeline):
         return super().execute(tier)
 
     def extra_histories(self, tier):
-        gate = [[{"act": "Prepare", "args": {"stage": s, "hclass": "other", "world": "std"}}, {"act": "Gate", "args": {"n": 0}},
-                 {"act": "Run", "args": {"mode": "duty", "span": "next"}}] for s in STAGES]
+        V = lambda a, b, c, pre="": {"v": [a, b, c], "pre": pre}
+        pairs = [(V(5, 1, 6), V(5, 1, 10)), (V(5, 1, 10), V(5, 1, 6)), (V(5, 1, 6), V(5, 1, 6)), (V(5, 1, 20), V(5, 1, 100)), (V(5, 1, 100), V(5, 1, 20)),
+                 (V(5, 9, 0), V(5, 10, 0)), (V(9, 0, 0), V(10, 0, 0)), (V(5, 1, 6, "-rc1"), V(5, 1, 6)), (V(5, 1, 6), V(5, 1, 6, "-rc1"))]
+        gate = [[{"act": "Prepare", "args": {"stage": "idle", "hclass": "other", "world": "std"}}, {"act": "Gate", "args": {"app": a, "gov": g}},
+                 {"act": "Run", "args": {"mode": "duty", "span": "next"}}] for a, g in pairs]
         special = [[{"act": "Prepare", "args": {"stage": s, "hclass": "other", "world": "std"}}, {"act": "Run", "args": {"mode": "noattest", "span": "prune"}}]
                    for s in ("relayed", "reportedpad", "split", "newval")]
         special += [[{"act": "Prepare", "args": {"stage": "idle", "hclass": "other", "world": w}}, {"act": "Run", "args": {"mode": "duty", "span": "120"}}] for w in ("big", "solo")]
@@ -182,9 +185,18 @@ class C09(Pipeline):
         byh = {}
         for e in events:
             byh.setdefault(e["h"], []).append(e)
-        halted = sum(1 for evs in byh.values() if any(e["act"] == "Gate" for e in evs) and any(e["act"] == "Run" and e["res"] == "abort" and "needs to be running at least" in e["log"] for e in evs))
-        if not gates or halted != len(gates):
-            self._vacuity.append("the deliberately closed version gate stopped %d of %d chains: abort detection is not live" % (halted, len(gates)))
+        gate_rows = []
+        for evs in byh.values():
+            g = [e for e in evs if e["act"] == "Gate"]
+            r = [e for e in evs if e["act"] == "Run"]
+            if g and r:
+                ver = lambda x: "v%d.%d.%d%s" % (x["v"][0], x["v"][1], x["v"][2], x["pre"])
+                gate_rows.append({"running": ver(g[0]["args"]["app"]), "completed_upgrade": ver(g[0]["args"]["gov"]),
+                                  "halted": r[0]["res"] == "abort", "in_paloma_begin_block": "needs to be running at least" in r[0]["log"]})
+        halted = sum(1 for g in gate_rows if g["halted"] and g["in_paloma_begin_block"])
+        passed = sum(1 for g in gate_rows if not g["halted"])
+        if not gates or halted == 0 or passed == 0:
+            self._vacuity.append("the version gate stopped %d and let pass %d of %d chains: both outcomes are needed (abort detection live, gate not always closed)" % (halted, passed, len(gates)))
         lapse = [e for e in events if e["act"] == "Run" and e["args"].get("span") == "prune"]
         stage_of = {e["h"]: e["args"] for e in events if e["act"] == "Prepare"}
         for e in lapse:
@@ -218,7 +230,8 @@ class C09(Pipeline):
             "runs_covering": {k: sum(1 for e in runs if e[k]) for k in ("m10", "m50", "m300", "m303")},
             "unattested_reports_run_to_pruning": [dict(stage=stage_of[e["h"]]["stage"], res=e["res"], blocks=e["blocks"], reported_messages_pruned=e["pruned"], validators_jailed=e["jailed"]) for e in lapse],
             "worlds_with_unjailable_inactive_validator": [dict(world=stage_of[e["h"]]["world"], res=e["res"], blocks=e["blocks"], unjailed_with_dead_pigeon=e["lapsed"], validators_jailed=e["jailed"]) for e in silent],
-            "version_gate_closed": len(gates), "version_gate_halted": halted,
+            "version_gate_histories": len(gates), "version_gate_halted": halted, "version_gate_passed": passed,
+            "version_gate": sorted(gate_rows, key=lambda g: (g["running"], g["completed_upgrade"]))[:120],
             "governance_actions": [dict(e["args"], res=e["res"], ms=e["ms"], queued_messages=e["nqueue"], left_in_store_after_readding_chain=e["nafter"], stack=e["stack"][:300])
                                    for e in events if e["act"] == "GovAction"],
             "kinds": kinds,
@@ -236,7 +249,8 @@ class C09(Pipeline):
         for e in events:
             byh.setdefault(e["h"], []).append(e)
         good = next((evs for evs in byh.values() if len(evs) == 3 and evs[1]["act"] == "Hostile" and evs[1]["res"] == "accepted" and evs[2]["res"] == "ok"), None)
-        gate = next((evs for evs in byh.values() if any(e["act"] == "Gate" for e in evs)), None)
+        gate = next((evs for evs in byh.values() if any(e["act"] == "Gate" for e in evs) and any(e["act"] == "Run" and e["res"] == "abort" for e in evs)), None)
+        opengate = next((evs for evs in byh.values() if any(e["act"] == "Gate" for e in evs) and any(e["act"] == "Run" and e["res"] == "ok" for e in evs)), None)
         if good is None or gate is None:
             return {"ok": False, "why": "no accepted-and-survived history / no gate history"}
         out = {}
@@ -260,6 +274,13 @@ class C09(Pipeline):
         for k, e in enumerate(c):
             e["i"] = k
         out["halt_without_gate_rejected"] = any(n == "C09.NoAbort" for n, _, _ in self.validate(c).monfail)
+        if opengate is not None:
+            # a node that is NOT older than the completed upgrade and stops anyway must be reported
+            c = copy.deepcopy(opengate)
+            for e in c:
+                if e["act"] == "Run":
+                    e["res"], e["blocks"], e["log"] = "abort", 1, "needs to be running at least"
+            out["halt_of_newer_software_rejected"] = any(n == "C09.NoAbort" for n, _, _ in self.validate(c).monfail)
         out["ok"] = all(out.values())
         return out
 
